@@ -169,6 +169,14 @@ def run_instance(inst):
         box = tuple(cv(x) for x in v['box']) if 'box' in v else None
         cpath = [tuple(cv(c) for c in p) for p in v['path']] if 'path' in v else None
         bad = concrete_compare(gname, cc, box, cpath, inst[2] if with_matcher else None, bulk)
+        if not bad and cpath is None and any(E.is_sym(c) for p in v['coords'].values() for c in p):
+            # the solver tends to return dyadic coordinates (0, 1/2, ...), on which a backend that rounds or tests truthiness behaves
+            # well by accident: the same configuration under an order-preserving affine change of each axis (generic doubles)
+            cc2 = {n: (1.37 * p[0] + 0.1013, 0.73 * p[1] - 0.2017) for n, p in cc.items()}
+            box2 = (1.37 * box[0] + 0.1013, 0.73 * box[1] - 0.2017, 1.37 * box[2] + 0.1013, 0.73 * box[3] - 0.2017) if box is not None else None
+            bad = concrete_compare(gname, cc2, box2, None, None, bulk)
+            if bad:
+                cc, box = cc2, box2
         if bad:
             known = None
             for f in findings:
